@@ -241,7 +241,7 @@ claim(
 claim(
     "C15",
     "other",
-    "Decides what update_detector_states hands to a detector. The co-location stencil of interpolate_fields on symbolic fields equals the stencil derived from the Yee staggering for the target (i, j, k+1/2) — per axis none / backward pair / forward pair (4,4,1,2,2,8 points), non-uniform backward pairs weighted by the half widths of their own axis with the first cell replicated. The whole path is interpreted on a concrete 5x4x4 grid of free symbolic field entries (current and previous H separate) and symbolic widths, for deep-interior / interior (fast path), face-touching, whole-domain and raw detectors on zero, periodic and electric / magnetic symmetry halos (one and two electric planes), uniform and non-uniform: the E and H arrays received by Detector.update equal entry by entry the stencil values under the halo rule (zero outside; wrap on periodic axes but never into the min halo of a symmetric axis; parity * mirror partner on electric symmetry planes, partner second cell for on-plane components, corners doubly mirrored), H time-centred (H_prev+H)/2 in both interpolating paths and untouched in the raw path, materials restricted to the region; on a stretched grid the co-location weight at the first cell of a wrapping axis uses the last cell's width (the neighbouring copy), a replica of the first cell's elsewhere. Holds for all field values on that grid.",
+    "Decides what update_detector_states hands to a detector. The co-location stencil of interpolate_fields on symbolic fields equals the stencil derived from the Yee staggering for the target (i, j, k+1/2) — per axis none / backward pair / forward pair (4,4,1,2,2,8 points), non-uniform backward pairs weighted by the half widths of their own axis with the first cell replicated. The whole path is interpreted on a concrete 5x4x4 grid of free symbolic field entries (current and previous H separate) and symbolic widths, for deep-interior / interior (fast path), face-touching, whole-domain and raw detectors on zero, periodic and electric / magnetic symmetry halos (one and two electric planes), uniform and non-uniform: the E and H arrays received by Detector.update equal entry by entry the stencil values under the halo rule (zero outside; wrap on periodic axes but never into the min halo of a symmetric axis; parity * mirror partner on electric symmetry planes, partner second cell for on-plane components, corners doubly mirrored), H time-centred (H_prev+H)/2 in both interpolating paths and untouched in the raw path, materials restricted to the region; on a stretched grid the co-location weight at the first cell of a wrapping axis uses the last cell's width (the neighbouring copy), a replica of the first cell's elsewhere. Which H the detectors receive as time partner in the forward and in the reverse step is decided by C03's step-order rule, evaluated here as R15.4. Holds for all field values on that grid.",
     TB + "; np.pad model on concrete arrays; Yee offsets E_c at +1/2 e_c, H_c at +1/2(1-e_c); parity / on-plane oracles of C32",
     "abstract interpretation over a stencil domain and on a concrete grid of free symbols; entry-wise polynomial identity against a stencil + halo oracle",
     "DESIGN.md §5 C15",
@@ -250,7 +250,7 @@ claim(
 claim(
     "C09",
     "other",
-    "Decides one step of the supercell identity on concrete cells: forward() is interpreted on a concrete cell (3x2x2 and its permutations) and on its supercell (2 or 3 copies per periodic axis; fields tiled with the Bloch phase exp(i k L) per copy, materials and — on a resolved rectilinear grid — cell widths tiled) with every field, material (isotropic, diagonal, full eps / mu tensors) and cell-width entry a free symbol, and the supercell's result must equal the tiled cell's result entry by entry as rational functions (periodic and Bloch faces on one, two or three axes, plain truncation elsewhere so that no entry is forced to zero). Whole runs follow by induction; round-off is not decided. Also decided is the condition it rests on — every read of a neighbouring cell across a periodic face sees what the adjacent copy of the cell would hold: pad_fields_for_boundaries, interpreted on a concrete 3x2x2 grid of free symbolic entries for every combination of Bloch / terminating axes, k of either sign and k = 0, uniform and resolved grids, yields halo cells equal to the wrapped neighbour times conj(phase) (min side) / phase (max side) with phase = exp(i k_a L_a), products at corners, zero behind terminating faces, interior untouched; needs_complex_fields is true exactly for a non-zero component along the boundary's own axis (negative included); wrap padding is reported exactly on axes with a periodic / Bloch face; inside fdtd/update.py the phase-less pad_fields is called only from pad_fields_for_boundaries and every array handed to a curl / anisotropic averaging routine in the four update functions is a result of pad_fields_for_boundaries.",
+    "Decides one step of the supercell identity on concrete cells: forward() is interpreted on a concrete cell (3x2x2 and its permutations) and on its supercell (2 or 3 copies per periodic axis; fields tiled with the Bloch phase exp(i k L) per copy, materials and — on a resolved rectilinear grid — cell widths tiled) with every field, material (isotropic, diagonal, full eps / mu tensors) and cell-width entry a free symbol, and the supercell's result must equal the tiled cell's result entry by entry as rational functions (periodic and Bloch faces on one, two or three axes, plain truncation elsewhere so that no entry is forced to zero). Whole runs follow by induction; round-off is not decided. Also decided is the condition it rests on — every read of a neighbouring cell across a periodic face sees what the adjacent copy of the cell would hold: pad_fields_for_boundaries, interpreted on a concrete 3x2x2 grid of free symbolic entries for every combination of Bloch / terminating axes, k of either sign and k = 0, uniform and resolved grids, yields halo cells equal to the wrapped neighbour times conj(phase) (min side) / phase (max side) with phase = exp(i k_a L_a), products at corners, zero behind terminating faces, interior untouched; needs_complex_fields is true exactly for a non-zero component along the boundary's own axis (negative included); wrap padding is reported exactly on axes with a periodic / Bloch face; inside fdtd/update.py the phase-less pad_fields is called only from pad_fields_for_boundaries and every array handed to a curl / anisotropic averaging routine in the four update functions is a result of pad_fields_for_boundaries. The supercell step also holds, for fields and stored polarisation, with an oriented-pole medium (3x3 coupling per pole) filling part of the cell across a periodic and a Bloch seam.",
     TB + "; np.pad model on concrete arrays; linalg.solve with an identity left-hand side = right-hand side; syntax-tree def-use of the padded inputs",
     "abstract interpretation of a whole solver step on a concrete cell and on its supercell over free symbols (rational-function identity per entry); supercell-halo oracle; decision tables; who-may-call / def-use rule on the syntax tree",
     "DESIGN.md §5 C09",
@@ -277,7 +277,7 @@ claim(
 claim(
     "C05",
     "other",
-    "Decides, for a symbolic number of steps T, that run_fdtd without gradient configuration, with checkpointed gradients and with reversible gradients of 1..4 slices ends at step T with the same history token of fields and detector states (reset, then steps 0..T-1 with record_detectors=True and simulate_boundaries=True) and untouched materials; every loop starts at the previous exit and its max_steps covers its length. The reversible driver is analysed against any strictly increasing partition 0 = s_0 < ... < s_k = T, and _reversible_slice_boundaries is shown to meet that contract for k = 1..6 (values round(x_i), x_0 = 0, x_k = T, constant increment T/k, driver rejects k > T) by the rounding lemma. record_boundaries affects only the recording state; run_fdtd's dispatch table. Round-off differences between strategies are not decided.",
+    "Decides, for a symbolic number of steps T, that run_fdtd without gradient configuration, with checkpointed gradients and with reversible gradients of 1..4 slices ends at step T with the same history token of fields and detector states (reset, then steps 0..T-1 with record_detectors=True and simulate_boundaries=True) and untouched materials; every loop starts at the previous exit and its max_steps covers its length. The reversible driver is analysed against any strictly increasing partition 0 = s_0 < ... < s_k = T, and _reversible_slice_boundaries is shown to meet that contract for k = 1..6 (values round(x_i), x_0 = 0, x_k = T, constant increment T/k, driver rejects k > T) by the rounding lemma. record_boundaries affects only the recording state; run_fdtd's dispatch table. Every run loop continues on a comparison of the step counter with a step count; a continue-test in other units (physical time and time step, given to the drivers as unrelated symbols) is reported, since it lets strategies stop at different steps. Round-off differences between strategies are not decided.",
     TB + "; counting-loop summary of eqxi.while_loop; `forward` as an opaque deterministic step; rounding lemma (DESIGN.md)",
     "abstract interpretation of the drivers with symbolic step counts: counting-loop summaries, history tokens with run fusion, linear-inequality facts; normal-form check of the partition formula against a proven lemma",
     "DESIGN.md §5 C05",
@@ -286,7 +286,7 @@ claim(
 claim(
     "C06",
     "other",
-    "Decides on the drivers for symbolic step counts: custom_fdtd_forward a -> b then b -> c on the returned container equals a -> c (same step, same history token) for Python-int and array-valued bounds, every loop starting at start_time with a trip bound covering end - start for all 0 <= start <= end <= time_steps_total; ArrayContainer.reset on a used dispersive container zeroes every declared FieldState member (enumerated from the class) and every detector state, keeps materials / conductivities / dispersive coefficients, keeps the recording buffers by default and zeroes them on request; run_fdtd, checkpointed_fdtd, reversible_fdtd and custom_fdtd_forward(reset_container=True) from a used container give the token of a pristine one, a rerun on returned arrays gives the identical token, and a partial run without reset continues from the given state.",
+    "Decides on the drivers for symbolic step counts: custom_fdtd_forward a -> b then b -> c on the returned container equals a -> c (same step, same history token) for Python-int and array-valued bounds, every loop starting at start_time with a trip bound covering end - start for all 0 <= start <= end <= time_steps_total; ArrayContainer.reset on a used dispersive container zeroes every declared FieldState member (enumerated from the class) and every detector state, keeps materials / conductivities / dispersive coefficients, keeps the recording buffers by default and zeroes them on request; run_fdtd, checkpointed_fdtd, reversible_fdtd and custom_fdtd_forward(reset_container=True) from a used container give the token of a pristine one, a rerun on returned arrays gives the identical token, and a partial run without reset continues from the given state. The container every strategy returns carries the caller's material arrays unchanged (R6.4), and the reversible strategy re-run from its own result gives the identical token.",
     TB + "; counting-loop summary of eqxi.while_loop; `forward` as an opaque deterministic step; jax.tree.map as a leaf-wise map",
     "abstract interpretation of the drivers and of ArrayContainer.reset over history tokens; counting-loop summaries with linear-inequality facts; exhaustiveness against the declared class members",
     "DESIGN.md §5 C06",
